@@ -124,6 +124,18 @@ func Decode(encdoc EncodedDocument, collectionDefinition client.CollectionDefini
 		return nil, err
 	}
 
+	// A new document starts with the default values of the collection. A stored document holds
+	// what was stored: a field without a stored value is nil, whatever its default.
+	for _, field := range collectionDefinition.GetFields() {
+		if field.DefaultValue == nil {
+			continue
+		}
+		err = doc.Set(field.Name, nil)
+		if err != nil {
+			return nil, err
+		}
+	}
+
 	for desc, val := range properties {
 		err = doc.Set(desc.Name, val)
 		if err != nil {
